@@ -190,6 +190,8 @@ def enum_edges(sw, variants=2):
     """{discriminant value: target block} of a switch on a two-variant enum (Option: 0 None / 1 Some; Result: 0 Ok / 1 Err),
     whichever way the match was written: `if let` lists one value and uses `otherwise` for the other, a full `match` lists
     both and leaves `otherwise` unreachable."""
+    if sw.get('t') != 'switch' or 'targets' not in sw:
+        return {}
     tg = {v: b for v, b in sw['targets']}
     out = dict(tg)
     missing = [str(i) for i in range(variants) if str(i) not in tg]
